@@ -23,7 +23,7 @@ import common
 logging.disable(logging.CRITICAL)
 
 PROP = "C07"
-PROPS_FILES = ["Pms/Props/C07.lean", "Pms/Props/C07Sq.lean", "Pms/Props/C07Rot.lean", "Pms/Props/C07Pair.lean", "Pms/Props/C07Dyn.lean"]
+PROPS_FILES = ["Pms/Props/C07.lean", "Pms/Props/C07Sq.lean", "Pms/Props/C07Rot.lean", "Pms/Props/C07Pair.lean", "Pms/Props/C07Dyn.lean", "Pms/Props/C07Ql.lean"]
 GENERATORS = []
 RULE = ("metamorphic pairs (configuration, transformed configuration) × real routine; configurations = seeded decimal-grid "
         "configurations (2D/3D, orthogonal and triclinic cells, 1-4 species, 1-5 frames, open clusters) and first frames of "
